@@ -63,21 +63,6 @@ fn poll_until_blocked(bench: &Bench, conn: &mut Connection<'_, '_, VirtualIo>, i
 fn battery(bench: &Bench, conn: &mut Connection<'_, '_, VirtualIo>, id: usize, tx: usize) -> Vec<String> {
     let mut out = Vec::new();
     let big = vec![0x77u8; tx + 8];
-    // (1) the largest QoS 1 payload accepted
-    let mut max_ok: Option<usize> = None;
-    for size in (0..=tx).rev() {
-        conn.verif_session_mut().verif_set_next_packet_id(1);
-        match bench.run(conn.publish(Publication::bytes("t", &big[..size]).qos(QoS::AtLeastOnce)), id) {
-            Some(Ok(_)) => {
-                max_ok = Some(size);
-                bench.push(id, &[0x40, 0x02, 0x00, 0x01]);
-                let _ = poll_until_blocked(bench, conn, id);
-                break;
-            }
-            _ => continue,
-        }
-    }
-    out.push(format!("largest QoS 1 payload: {:?}", max_ok));
     // (2) as many minimal QoS 1 publishes as it takes to be refused
     let mut results = Vec::new();
     for k in 0..10u16 {
@@ -105,6 +90,21 @@ fn battery(bench: &Bench, conn: &mut Connection<'_, '_, VirtualIo>, id: usize, t
     out.push(format!("subscribe: {}", r));
     bench.push(id, &[0x90, 0x04, 0x00, 0x01, 0x00, 0x00]);
     let _ = poll_until_blocked(bench, conn, id);
+    // (3b) the largest QoS 1 payload accepted
+    let mut max_ok: Option<usize> = None;
+    for size in (0..=tx).rev() {
+        conn.verif_session_mut().verif_set_next_packet_id(1);
+        match bench.run(conn.publish(Publication::bytes("t", &big[..size]).qos(QoS::AtLeastOnce)), id) {
+            Some(Ok(_)) => {
+                max_ok = Some(size);
+                bench.push(id, &[0x40, 0x02, 0x00, 0x01]);
+                let _ = poll_until_blocked(bench, conn, id);
+                break;
+            }
+            _ => continue,
+        }
+    }
+    out.push(format!("largest QoS 1 payload: {:?}", max_ok));
     // (4) the largest QoS 0 payload accepted
     let mut max0: Option<usize> = None;
     for size in (0..=tx).rev() {
@@ -293,6 +293,7 @@ impl Model for C17 {
                                 let filter = format!("f/{}", free_tag);
                                 let before = bench.written(id).len();
                                 let count0 = conn.session().verif_runtime().retained;
+                                let quota0 = conn.session().verif_runtime().send_quota;
                                 let r: Result<(), Res> = match kind {
                                     1 | 2 => bench
                                         .run(conn.publish(Publication::bytes("t", &payload).qos(qos_of(kind))), id)
@@ -315,8 +316,9 @@ impl Model for C17 {
                                     }
                                     Err(e) => {
                                         let count1 = conn.session().verif_runtime().retained;
-                                        if !w.is_empty() || count1 != count0 {
-                                            viol.push((format!("C17:refused-leaves-trace:{:?}", e), format!("request refused with {:?} wrote {} bytes, retained {} -> {}", e, w.len(), count0, count1)));
+                                        let quota1 = conn.session().verif_runtime().send_quota;
+                                        if !w.is_empty() || count1 != count0 || quota1 != quota0 {
+                                            viol.push((format!("C17:refused-leaves-trace:{:?}", e), format!("request refused with {:?} wrote {} bytes, retained {} -> {}, send quota {} -> {}", e, w.len(), count0, count1, quota0, quota1)));
                                         }
                                         class = hash_of(&(class, format!("{:?}", e)));
                                     }
